@@ -211,6 +211,9 @@ func fixStdlib(interp *Interpreter) {
 		p["Writer"] = reflect.ValueOf(l.Writer)
 
 		// Update mapTypes to virtualized symbols as well.
+		interp.mapTypes[p["Fatal"]] = interp.mapTypes[reflect.ValueOf(log.Fatal)]
+		interp.mapTypes[p["Fatalf"]] = interp.mapTypes[reflect.ValueOf(log.Fatalf)]
+		interp.mapTypes[p["Fatalln"]] = interp.mapTypes[reflect.ValueOf(log.Fatalln)]
 		interp.mapTypes[p["Print"]] = interp.mapTypes[reflect.ValueOf(log.Print)]
 		interp.mapTypes[p["Printf"]] = interp.mapTypes[reflect.ValueOf(log.Printf)]
 		interp.mapTypes[p["Println"]] = interp.mapTypes[reflect.ValueOf(log.Println)]
